@@ -341,6 +341,18 @@ def rule_r2_save_load(prog: Program, col: Collector) -> None:
             f = fname(e.func[1], lp)
             if f:
                 loaded_files[f] = "json"
+    # every artefact is (re)written by every save(): a checkpoint into a directory that already holds one must replace all of it
+    for e in sft.calls():
+        is_write = is_global(e.func, "numpy.save", "json.dump") or (e.name == "open" and e.func[0] == "attr" and fname(e.func[1], pp))
+        if is_write:
+            guards = [f for f in e.ctx if f[0] in ("if", "for", "while", "try")]
+            col.check(not guards, save.where(e.node), save.short,
+                      f"{short(e.func, 30)}(...) in save() runs on every call (not under {[short(g[1], 40) for g in guards if g[0] == 'if']})", construct="conditional-artefact",
+                      necessity="params.json carries the iteration counter: a second checkpoint that keeps the old file pairs new arrays with an old counter, "
+                                "so the loaded minimiser continues from the wrong iteration (wrong averaging weights under `plus`)")
+    early = [e for e in sft.of_kind("return", "raise") if any(w.seq > e.seq for w in sft.calls() if is_global(w.func, "numpy.save", "json.dump"))]
+    col.check(not early, save.where(early[0].node) if early else save.where(), save.short, "save() cannot leave before all artefacts are written", construct="early-exit-in-save",
+              necessity="a partial checkpoint mixes two states")
     col.check(set(saved_files) == set(loaded_files) and None not in saved_files, save.where(), save.short,
               f"files written {sorted(map(str, saved_files))} == files read {sorted(map(str, loaded_files))}", construct="file-names",
               necessity="a saved-then-loaded minimiser must continue identically")
@@ -418,7 +430,7 @@ def rule_r345(prog: Program, col: Collector) -> None:
               "if self.plus: cumulative_regret is clipped at 0 after the cumulative update", construct="plus-clip",
               necessity="the 'plus' variant keeps cumulative regret non-negative; clipping before the update (or never) lets it go negative")
     col.check(len(upd) == 1 and not [f for f in upd[0].ctx if f[0] in ("if",)], it.where(), it.short, "the cumulative update is unconditional",
-              construct="regret-update", necessity="")
+              construct="regret-update", necessity="a conditional regret update skips iterations: the cumulative regret is then not the sum the orthogonality and no-regret statements speak about")
     # regret added = q - expected (orthogonal to the strategy played)
     if upd:
         v = upd[0].value
@@ -483,11 +495,23 @@ def rule_r345(prog: Program, col: Collector) -> None:
         lam = s[2][0]
         okid = okid or lam[2] == ("attr", ("call", ("global", P + "coalitions.Coalition.from_players"), (lam[1][0],), ()), "id")
     col.check(okid, ref.where(), ref.short, "id of a coalition set = bitmask over its re-indexed coalitions (Coalition.from_players(set).id)", construct="meta-id",
-              necessity="")
+              necessity="the ranking is a bijection only if the id of a coalition set is the bitmask of its re-indexed members")
     # number of regret minimisers = sets of size <= limit - 1
     init = mm["__init__"]
     ift = fterms(prog, init)
     st = [e for e in ift.of_kind("store") if e.attr == "number_of_regret_minimizers"]
-    okn = bool(st) and is_call_to(st[0].value, P + "regret.coalitions_up_to") and len(st[0].value[2]) == 2 and \
-        st[0].value[2][1] == ("bin", "-", ("param", init.positional_params()[2]), ("const", 1))
-    col.check(okn, init.where(), init.short, "one regret minimiser per internal node: sets of size <= limit - 1", construct="rm-count", necessity="")
+    lim = ("param", init.positional_params()[2])
+    nc_self = ("attr", SELF, "number_of_coalitions")
+    ncs = [nc_self] + [e.value for e in ift.of_kind("store") if e.obj == SELF and e.attr == "number_of_coalitions"]
+    depth = st[0].value[2][1] if st and is_call_to(st[0].value, P + "regret.coalitions_up_to") and len(st[0].value[2]) == 2 else None
+    shape = depth is not None and depth[0] == "bin" and depth[1] == "-" and depth[3] == ("const", 1) and st[0].value[2][0] in ncs
+    clipped = shape and is_call_to(depth[2], "min") and len(depth[2][2]) == 2 and lim in depth[2][2] and any(a in ncs for a in depth[2][2])
+    raw = shape and depth[2] == lim
+    if raw:
+        col.violation(init.where(st[0].node), init.short, "rm-count-unclipped",
+                      "internal nodes are counted with the unclipped limit: coalitions_up_to(number_of_coalitions, limit - 1), while the ranking clips the limit to the number of viable coalitions",
+                      "for limit > 2**n - n - 2 the single terminal node (everything revealed) is given a regret minimiser; nothing is left to choose there, its strategy is 0/0 = NaN, "
+                      "and the bottom-up sweep propagates the NaN into every node: no strategy is a probability distribution any more", rule="R5")
+    else:
+        col.check(bool(clipped), init.where(), init.short, "one regret minimiser per internal node: sets of size <= min(limit, number of viable coalitions) - 1", construct="rm-count",
+                  necessity="the internal nodes are the coalition sets with something left to reveal", rule="R5")
